@@ -207,12 +207,128 @@ _sig_key = Contract(
           'component could be None is a type error of this contract (Optional where a Match is required)',
 )
 
-CONTRACTS = [_scope_cache, _def_cache, _cache_node, _filter_init, _sig_key]
+# ------------------------------------------------------------------ time-limited signature cache (jedi/cache.py)
+def _region_after_generator(func):
+    """signature_time_cache...wrapper after `generator = key_func(*args, **kwargs)`"""
+    for k, s_ in enumerate(func.body):
+        if isinstance(s_, ast.Assign) and ast.unparse(s_.targets[0]) == 'generator':
+            return func.body[k + 1:]
+    return None
+
+
+def _next_of_keygen(V, st, self_val, args, kwargs, node):
+    """the key function is a generator: its first element is the KEY of this call, its second the freshly computed
+    VALUE (computing it is the effect `compute`)"""
+    from pyvc.calls import add_effect
+    n = st.ghost.get('keygen_calls', 0)
+    st.ghost['keygen_calls'] = n + 1
+    if n == 0:
+        return V.entry.env['KEY']
+    if n == 1:
+        add_effect(V, st, 'compute', node)
+        return V.entry.env['VALUE']
+    from pyvc.values import Unsupported
+    raise Unsupported('third next() on the key generator')
+
+
+def _clock(V, st, self_val, args, kwargs, node):
+    """time.time(): NOW1 when the entry is checked (before the value is computed), NOW2 when it is stored (after)"""
+    computed = any(lbl == 'compute' for lbl, _ln in st.ghost.get('effect_log', ()))
+    return V.entry.env['NOW2' if computed else 'NOW1']
+
+
+def _replay_time_cache(inp):
+    """the real decorator with a controllable clock: hit only for an equal key that has not expired, None never stored"""
+    from pyvc.replay import run_real
+    import jedi.cache as jc
+    from jedi import settings
+    now = [1000.0]
+
+    class _T:
+        @staticmethod
+        def time():
+            return now[0]
+    real_time, jc.time = jc.time, _T
+    old = settings.call_signatures_validity
+    settings.call_signatures_validity = 3.0
+    computed = []
+    try:
+        @jc.signature_time_cache('call_signatures_validity')
+        def f(key, value):
+            yield key
+            computed.append(value)
+            yield value
+
+        def run():
+            log = []
+            for key, value, dt in inp['calls']:
+                now[0] += dt
+                log.append(f(key, value))
+            return log
+        out = run_real(run)
+    finally:
+        jc.time = real_time
+        settings.call_signatures_validity = old
+        jc._time_caches.pop('call_signatures_validity', None)
+    # oracle: straightforward model of the documented behaviour
+    store, t, exp = {}, 1000.0, []
+    for key, value, dt in inp['calls']:
+        t += dt
+        if key in store and store[key][0] > t:
+            exp.append(store[key][1])
+        else:
+            exp.append(value)
+            if key is not None:
+                store[key] = (t + 3.0, value)
+    return {'EXPECTED': exp}, out
+
+
+from pyvc.values import MNS as _MNS, MFn as _MFn
+MNS_TIME = _MNS('time', {'time': _MFn('spec', 'time.time', spec=FnSpec('time.time', impl=_clock, assumed=True,
+                                                                         note='abstract clock: NOW1 / NOW2'))})
+
+_time_cache = Contract(
+    id='C08.signature_time_cache.wrapper', prop='C08',
+    clause='the time-limited signature cache returns a stored result only for an EQUAL key whose entry has not expired; '
+           'otherwise the result is the one computed for this very call; a key of None is never stored (path-less '
+           'buffers are never cached)',
+    file='jedi/cache.py', qualname='signature_time_cache._temp.wrapper', region=_region_after_generator,
+    params={'args': ANY, 'kwargs': ANY},
+    free={'generator': ANY, 'dct': DictT(Opt(ANY), Tup(INT, ANY)), 'time_add_setting': STR, 'key_func': ANY,
+          'KEY': Opt(ANY), 'VALUE': ANY, 'NOW1': INT, 'NOW2': INT, 'VALIDITY': INT},
+    names={'next': FnSpec('next', impl=_next_of_keygen, assumed=False), 'time': MNS_TIME,
+           'getattr': FnSpec('getattr(settings, name)', impl=lambda V, st, sv, a, k, n: V.entry.env['VALIDITY'],
+                             assumed=True, note='the validity setting: some number')}, ret=ANY,
+    ensures=[
+        'implies(KEY in dct and "compute" not in EFFECTS, result == dct[KEY][1])',
+        'implies(KEY not in dct, "compute" in EFFECTS and result == VALUE)',
+        'implies("compute" in EFFECTS, result == VALUE)',
+        'implies(KEY is None, NEW_dct == dct)',
+        'implies(KEY is not None and "compute" in EFFECTS, KEY in NEW_dct and NEW_dct[KEY][1] == VALUE)',
+        'implies("compute" not in EFFECTS, NEW_dct == dct)',
+        # a stored entry is served exactly while it has not expired, and a new entry expires `validity` after it was made
+        'implies(KEY in dct, ("compute" not in EFFECTS) == (dct[KEY][0] > NOW1))',
+        'implies(KEY is not None and "compute" in EFFECTS, NEW_dct[KEY][0] == NOW2 + VALIDITY)',
+    ],
+    witness={}, replay=_replay_time_cache, concrete_only=True, concrete_ensures=['result == EXPECTED'],
+    witness_library=[
+        {'calls': [['k', 'v1', 0], ['k', 'v2', 1], ['k', 'v3', 5], ['k2', 'w', 0], ['k', 'v4', 1]]},
+        {'calls': [[None, 'a', 0], [None, 'b', 0]]},
+        {'calls': [['k', 'v1', 0], ['k', 'v2', 3], ['k', 'v3', 2.5], ['k', 'v4', 0.6]]},
+    ],
+    notes='time.time() is an abstract clock (a fresh number per call); the key function is a two-element generator',
+)
+
+CONTRACTS = [_scope_cache, _def_cache, _cache_node, _filter_init, _sig_key, _time_cache]
 
 
 def register(reg):
     from pyvc.values import MNS, MFn, SV
     import z3 as _z3
+    reg.names['time'] = MNS('time', {'time': MFn('spec', 'time.time', spec=FnSpec(
+        'time.time', params=[], ret=INT, pure=False, assumed=True, note='the clock: some number, a new one per call'))})
+    reg.names['getattr'] = FnSpec('getattr(settings, name)', params=[('obj', ANY), ('name', STR)], ret=INT, pure=True,
+                                  assumed=True, note='the validity setting, a number')
     reg.add_family(Family('CtxSig', methods={'get_root_context': FnSpec('Context.get_root_context', ret=Obj('RootSig'),
                                                                         pure=True, assumed=True)}))
     reg.add_family(Family('RootSig', methods={'py__file__': FnSpec('ModuleContext.py__file__', ret=Opt(ANY), pure=True,
